@@ -338,7 +338,7 @@ def _discharge_all(E, rep):
     open_obls = [o for o in E.obls if (o.status == "undecided" or (o.status == "refuted" and not (getattr(o, "replay", None) or {}).get("reproduced")))
                  and o.func == E.cur and not E.cur.startswith("lemma:")
                  and (o.kind.startswith("post#") or o.kind == "raises") and not getattr(o, "tainted", None)]
-    if open_obls and E.cur in E.reg.contracts:
+    if open_obls and E.cur in E.reg.contracts and _native_ok(E.reg.contracts[E.cur]):
         from .search import search
         import os
         seen = {}
@@ -363,7 +363,7 @@ def _discharge_all(E, rep):
     # (value semantics of containers, assumed contracts) hides a real violation
     done_obls = [o for o in E.obls if o.status == "discharged" and o.func == E.cur and not E.cur.startswith("lemma:")
                  and o.kind.startswith("post#") and getattr(o, "clause", None)]
-    if done_obls and E.cur in E.reg.contracts and not getattr(E.reg.contracts[E.cur], "no_crosscheck", False):
+    if done_obls and E.cur in E.reg.contracts and _native_ok(E.reg.contracts[E.cur]):
         from .search import search
         import os
         seen = {}
@@ -390,6 +390,17 @@ def _discharge_all(E, rep):
             "goal_size": len(str(o.goal)) if o.goal is not None else 0,
             "replay": getattr(o, "replay", None), "clause": getattr(o, "clause", None),
         })
+
+
+def _native_ok(c):
+    """the real function is only ever executed natively (counterexample search / cross-check) when its contract says it has
+    no effect outside its arguments: nothing that touches the file system, the whole heap, or ends the process"""
+    if c.noreturn or getattr(c, "no_native", False):
+        return False
+    for m in (c.modifies or []):
+        if m.startswith("ghost:") or m == "heap:*":
+            return False
+    return True
 
 
 def _model_text(m):
